@@ -334,6 +334,12 @@ def _p_values_worker(
         node_1 = f'{level}/{sibling_pair[1]}'
         node_2 = f'{level}/{sibling_pair[2]}'
 
+        # as in score_differential_genes: a cluster with fewer than
+        # two cells has no variance and cannot support a t-test
+        if cluster_stats[node_1]['n_cells'] < 2 \
+                or cluster_stats[node_2]['n_cells'] < 2:
+            continue
+
         p_values = diffexp_p_values_from_stats(
             node_1=node_1,
             node_2=node_2,
